@@ -250,6 +250,10 @@ func main() {
 							viols = append(viols, found{v: sim.Violation{Property: id, Class: sim.VRace, Op: "values-shared-between-callers",
 								Detail: fmt.Sprintf("data race inside the standard library (%s / %s) on memory reachable from values the library returned to two callers", rr.Top[0], rr.Top[1])},
 								run: p.Run, prog: &p, race: rr, bin: bin, nw: nw, base: base})
+						} else if rr.BetweenCallers() {
+							viols = append(viols, found{v: sim.Violation{Property: id, Class: sim.VRace, Op: "values-shared-between-callers",
+								Detail: fmt.Sprintf("two callers' own use of their results raced (%s / %s): the library handed the same memory to both", rr.Top[0], rr.Top[1])},
+								run: p.Run, prog: &p, race: rr, bin: bin, nw: nw, base: base})
 						} else if !rr.InLibrary() {
 							harnessTrouble++
 							trouble = append(trouble, "race report without a library frame:\n"+rr.Text)
